@@ -10,7 +10,7 @@ RULE = ("cases are generated per helper (workload, range, linspace, logspace, cl
         "the span, or a grid with >= 3 points, or a data set with >= 3 distinct values; distinct by case text. "
         "Closest-element lists cover the whole finite double range (scaled by 2^e, elements of the order of DBL_MAX, neighbours 1..1000 ulp or a relative 1e-16..1e-6 apart, "
         "subnormals/signed zeros, mixed magnitudes) with targets on and 0..1000 ulp / relative 1e-16..1e-6 off elements and midpoints; nearest is decided in exact rational arithmetic "
-        "with the a-priori slack 2^-51 of the two rounded distances; grids also at scales 1e-290..1e290 and with nearly equal end points. "
+        "with the a-priori slack 2^-51 of the two rounded distances; grids also at scales 1e-290..1e290, with nearly equal end points, and with end points from subnormals to DBL_MAX (one quantum 2^-1074 of slack per subnormal operation). "
         "Every way of calling a helper is driven: Range(max), Range(min,max) with the default step, Lists_Equal on lists of lists, Transpose_Lists(v1,v2), DataPoint with the default weight, "
         "the list templates at int and at double (signed zeros, NaN, infinities as elements), Median twice on the vector it reorders. "
         "Statistics run over the whole finite double range (data scaled by 2^e up to DBL_MAX and down to subnormals, |x| >> spread at relative 1e-16..1e-3, neighbours 1..1000 ulp apart, mixed magnitudes, "
@@ -160,7 +160,7 @@ def sum_overflows(X):
     P = Fraction(0); Q = Fraction(0)
     for k, x in enumerate(X, 1):
         P += x; Q += abs(x)
-        if abs(P) + gam(k) * Q >= FMAX: return True
+        if abs(P) + gam(k) * Q >= FMAX or abs(x) * (1 + UR) >= FMAX: return True      # (a term that is itself a product may exceed the range alone)
     return False
 
 
@@ -209,7 +209,10 @@ def _key(x):
     return "nan" if x != x else (x, math.copysign(1.0, x))
 
 
-def _same(a, b): return _key(a) == _key(b) if (isinstance(a, (int, float)) and isinstance(b, (int, float))) else a == b
+def _same(a, b):
+    """equal as doubles (NaN = NaN; the sign of a zero result is not part of any law: an empty or cancelling accumulation is +0.0)"""
+    if not (isinstance(a, (int, float)) and isinstance(b, (int, float))): return a == b
+    return a == b or (a != a and b != b)
 
 
 def stat_check(op, ref, got, sigop=None, what=""):
@@ -243,7 +246,7 @@ class WavgRef:
         self.tol_avg = 2 * (gam(n + 1) * absP + gam(n + 1) * abs(avg) * W + n * TINY) / W + TINY
         self.reg_avg = ":sum-overflow" if (sum_overflows(P) or sum_overflows(Wt)) else ""
         if n < 2: self.se2 = None; return
-        K = Fraction(n, n - 1) / W / W
+        K = self.K = Fraction(n, n - 1) / W / W
         t = [x - wbar * avg for x in P]; c = [w - wbar for w in Wt]
         T1 = sum(x * x for x in t); S2 = sum(a * b for a, b in zip(c, t)); S3 = sum(x * x for x in c)
         self.se2 = K * sum((w * (v - avg)) ** 2 for v, w in zip(V, Wt))
@@ -482,6 +485,19 @@ def generate(rng, tier):
         cs.append(Case(f"linspace {hx(a)} {hx(b)} {steps}", ("linspace", "linspace-wide")))
         la = abs(a) if a != 0.0 else 1.0; lb = abs(b) if b != 0.0 else 10 ** rng.uniform(-290, 290)
         cs.append(Case(f"logspace {hx(la)} {hx(lb)} {steps}", ("logspace", "logspace-wide"), tol=(1e-9, 0.0)))
+    # grids whose end points reach both ends of the double range (order of DBL_MAX, subnormals, mixed)
+    def gend():
+        r = rng.random()
+        if r < 0.35: return rng.choice([-1, 1]) * DBL_MAX * rng.uniform(0.01, 1)
+        if r < 0.55: return rng.choice([-1, 1]) * rng.choice([rng.randint(1, 64), rng.randint(1, 2 ** 53)]) * 5e-324
+        if r < 0.8: return rng.choice([-1, 1]) * 10 ** rng.uniform(-323, 308)
+        return rng.choice([0.0, DBL_MAX, -DBL_MAX, 5e-324, DBL_MIN, ulp_step(DBL_MAX, -rng.choice(ULPS)), 2.0 ** 1023])
+    for _ in range(1500 if big else 150):
+        steps = rng.choice([2, 3, 4, 5, 10, 17, 100, rng.randint(2, 2000)])
+        a, b = gend(), gend()
+        if rng.random() < 0.2: b = _fin(a * rng.choice([0.5, 2.0, 1 + rng.choice(RELS), -1.0]))
+        cs.append(Case(f"linspace {hx(a)} {hx(b)} {steps}", ("linspace", "linspace-extreme")))
+        cs.append(Case(f"logspace {hx(abs(a) or 1.0)} {hx(abs(b) or 2.0)} {steps}", ("logspace", "logspace-extreme"), tol=(1e-9, 1e-320)))
     # Locate_Closest_Location
     for _ in range(6000 if big else 800):
         n = rng.choice([1, 1, 2, 3, 4, 5, 8, 16, 33, 64])
@@ -600,24 +616,32 @@ def predicates(c, io):
         n, l = v[0], v[1:]
         if steps < 2 or a == b:
             if l != [a]: out.append((op + ":degenerate", f"degenerate request should return [min], got {l[:3]}"))
+        elif n != steps or len(l) != steps: out.append((op + ":count", f"{n} points instead of {steps}"))
         else:
-            if n != steps: out.append((op + ":count", f"{n} points instead of {steps}"))
+            # a-priori slack as before; new: one quantum 2^-1074 per operation whose result is subnormal, and the upper end of the range:
+            # where max - min (span) or a point within rounding of an end point (end) exceeds DBL_MAX the clause carries a region suffix (K-C19-2)
+            sc = max(abs(a), abs(b)); QU = 2.0 ** -1074; up = b > a
+            allfin = all(finite(x) for x in l)
+            if op == "linspace":
+                span = Fraction(b) - Fraction(a); st = span / (steps - 1)
+                reg = ":span-overflow" if abs(span) * (1 + UR) >= FMAX else (":end-overflow" if Fraction(sc) * (1 + Fraction(8e-16) * steps) >= FMAX else "")
+                if not _same(l[0], a): out.append((op + ":first" + reg, f"first point {l[0]!r} is not min {a!r}"))
+                if not (finite(l[-1]) and abs(Fraction(l[-1]) - Fraction(b)) <= Fraction(8e-16) * Fraction(sc) * steps + 2 * steps * TINY): out.append((op + ":last" + reg, f"last point {l[-1]!r} is not max {b!r} within rounding"))
+                # strictly monotone unless the spacing is below the resolution of the doubles involved
+                res_ok = abs(st) > Fraction(4e-16) * Fraction(sc) and abs(st) > 4 * TINY
+                if res_ok and any(not ((y > x) if up else (y < x)) for x, y in zip(l, l[1:])): out.append((op + ":monotone" + reg, "points are not strictly monotone"))
+                tl = Fraction(1e-9) * abs(st) + Fraction(8e-16) * Fraction(sc) + 4 * TINY
+                if not allfin or any(abs(Fraction(y) - Fraction(x) - st) > tl for x, y in zip(l, l[1:])): out.append((op + ":spacing" + reg, "points are not equally spaced"))
             else:
-                lg = 1.0 if op == "linspace" else max(1.0, abs(math.log(a)), abs(math.log(b)))
-                if (op == "linspace" and l[0] != a) or abs(l[0] - a) > 4e-16 * lg * abs(a): out.append((op + ":first", f"first point {l[0]!r} is not min {a!r}"))
-                sc = max(abs(a), abs(b))
-                if abs(l[-1] - b) > (8e-16 * sc * steps if op == "linspace" else 8e-16 * lg * abs(b) * 4): out.append((op + ":last", f"last point {l[-1]!r} is not max {b!r} within rounding"))
-                up = b > a
-                if steps <= 400 or op == "linspace":
-                    # strictly monotone unless the spacing is below the resolution of the doubles involved
-                    res_ok = abs(b - a) / (steps - 1) > 4e-16 * sc if op == "linspace" else abs(math.log(b) - math.log(a)) / (steps - 1) > 4e-16 * max(1.0, abs(math.log(a)), abs(math.log(b)))
-                    if res_ok and any((y <= x) if up else (y >= x) for x, y in zip(l, l[1:])): out.append((op + ":monotone", "points are not strictly monotone"))
-                if op == "linspace":
-                    d = [y - x for x, y in zip(l, l[1:])]; st = (b - a) / (steps - 1)
-                    if any(abs(x - st) > 1e-9 * abs(st) + 8e-16 * sc for x in d): out.append((op + ":spacing", "points are not equally spaced"))
-                else:
-                    d = [math.log(y) - math.log(x) for x, y in zip(l, l[1:])]; st = (math.log(b) - math.log(a)) / (steps - 1)
-                    if any(abs(x - st) > 1e-9 * abs(st) + 1e-13 * max(1.0, abs(math.log(a)), abs(math.log(b))) for x in d): out.append((op + ":spacing", "points are not equally spaced in the logarithm"))
+                la, lb = math.log(a), math.log(b); lg = max(1.0, abs(la), abs(lb)); st = (lb - la) / (steps - 1)
+                reg = ":end-overflow" if sc * (1 + 8e-16 * lg * 4) >= DBL_MAX else ""
+                if not (finite(l[0]) and abs(l[0] - a) <= 4e-16 * lg * abs(a) + QU): out.append((op + ":first" + reg, f"first point {l[0]!r} is not min {a!r}"))
+                if not (finite(l[-1]) and abs(l[-1] - b) <= 8e-16 * lg * abs(b) * 4 + QU): out.append((op + ":last" + reg, f"last point {l[-1]!r} is not max {b!r} within rounding"))
+                if steps <= 400:
+                    res_ok = abs(st) > 4e-16 * lg and min(a, b) * math.expm1(min(abs(st), 700.0)) >= 4 * QU
+                    if res_ok and any(not ((y > x) if up else (y < x)) for x, y in zip(l, l[1:])): out.append((op + ":monotone" + reg, "points are not strictly monotone"))
+                if not allfin or any(x <= 0 for x in l) or any(abs(math.log(y) - math.log(x) - st) > 1e-9 * abs(st) + 1e-13 * lg + QU / x + QU / y for x, y in zip(l, l[1:])):
+                    out.append((op + ":spacing" + reg, "points are not equally spaced in the logarithm"))
     elif op == "closest":
         pv = parse_vals(c.line)[1:]; n = pv[0]; l = pv[1:1 + n]; tg = pv[1 + n]
         srt = all(x <= y for x, y in zip(l, l[1:]))
@@ -694,7 +718,7 @@ def predicates(c, io):
             # equal weights (for wavg1: the default weight): (Arithmetic_Mean, s / sqrt N), to the cancellation bound of the first pass and the underflow allowance
             sr = StatRef(vals); var, tolv, reg = sr.variance()
             se = float(sqrt_bounds(var / n)[0]) if var / n <= FMAX else math.inf; sc = max(abs(x) for x in vals)
-            uf = float(sqrt_bounds(2 * (n + 2) * TINY * (3 + 2 * abs(ref.avg) + ref.avg ** 2))[1] / ref.W)
+            uf = float(sqrt_bounds(2 * (ref.K * n * TINY * (3 + 2 * abs(ref.avg) + ref.avg ** 2) + TINY))[1])     # squares and the final product may be subnormal
             if finite(se) and not ref.reg_se and not (finite(got[1]) and abs(got[1] - se) <= 1e-6 * se + 1e-9 * sc + uf):
                 out.append((op + ":equal-weights", f"equal weights: standard error {got[1]!r}, s/sqrt(N) = {se!r}"))
     elif op == "laws":
